@@ -119,6 +119,17 @@ func (t *itr) bind(p string) string {
 
 // define (re)binds a Go local as a Lean `let`.
 func (t *itr) define(name string, c cat, k vkind, val string) {
+	if i := strings.Index(name, "."); i > 0 && c == cDec {
+		// a Decimal field of a local struct
+		owner, field := name[:i], name[i+1:]
+		ov := t.env.vars[owner]
+		if ov == nil || ov.cat != cLoop {
+			t.fail("assignment to %s", name)
+			return
+		}
+		t.define(owner, cLoop, vVal, fmt.Sprintf("{ %s with %s := %s }", owner, field, val))
+		return
+	}
 	v := t.env.vars[name]
 	if v != nil && v.readOnly {
 		t.fail("assignment to the read-only local %s", name)
@@ -184,6 +195,18 @@ func (t *itr) decRef(e ast.Expr) decRef {
 			continue
 		}
 		break
+	}
+	if u, ok := e.(*ast.UnaryExpr); ok && u.Op == token.AND {
+		if se, ok := u.X.(*ast.SelectorExpr); ok {
+			e = se
+		}
+	}
+	if se, ok := e.(*ast.SelectorExpr); ok {
+		if v := t.env.vars[identName(se.X)]; v != nil && v.cat == cLoop {
+			if f, ok := loopFields[se.Sel.Name]; ok && f.cat == cDec {
+				return decRef{"local", identName(se.X) + "." + f.lean, true}
+			}
+		}
 	}
 	if u, ok := e.(*ast.UnaryExpr); ok && u.Op == token.AND {
 		if id := identName(u.X); id != "" {
